@@ -62,7 +62,7 @@ ENUMS = {
     "EnA": ("enum", [("RED", "1"), ("BLUE", "2")]),
     "EnS": ("enum", [("ONE", "'1'"), ("X", "'x'"), ("NUL", "'null'"), ("AB", "'ab'"), ("LST", "'[1]'")], "str, enum.Enum"),
     "EnI": ("enum", [("LO", "0"), ("HI", "9")], "enum.IntEnum"),
-    "EnT": ("enum", [("T1", "'1'"), ("TD", "'2020-01-01'"), ("TN", "None"), ("TT", "(1, 2)")]),
+    "EnT": ("enum", [("T1", "'1'"), ("TD", "'2020-01-01'"), ("TN", "None"), ("TF", "1.5")]),
 }
 LITERALS = [["1", "'a'", "'b'"], ["'1'", "'null'", "None"], ["'ab'", "True", "2"], ["b'x'", "'[1]'"]]
 FIELD_NAMES = coregen.FIELD_NAMES
@@ -75,9 +75,6 @@ FIELD_NAMES = coregen.FIELD_NAMES
 def gen_leaf(rng, env, hashable=False):
     names = list(HASHABLE_LEAVES if hashable else [k for k in LEAVES if k != "bytes"] + ["bytes"])
     extra = [n for n, d in env["defs"].items() if d[0] in ("enum", "literal")]
-    if hashable:
-        extra = [n for n in extra if env["defs"][n][0] == "enum" and n != "EnT"] + \
-                [n for n in extra if env["defs"][n][0] == "literal"]
     if extra and rng.random() < 0.3:
         return ("leaf", rng.choice(extra))
     return ("leaf", rng.choice(names))
@@ -239,7 +236,7 @@ def gen_value(rng, t, env, mod, depth=3, size=3):
         n = rng.randint(0, size) if depth > 0 else 0
         vals = [gen_value(rng, t[3], env, mod, depth - 1, size) for _ in range(n)]
         if vals and t[3] == ("leaf", "str") and rng.random() < 0.4:
-            vals[0] = rng.choice(["ab", "xy", "[]", "{}", "-0", "1,"][:5])        # a 2-character first member
+            vals[0] = rng.choice(["ab", "xy", "[]", "{}", "-0"])        # a 2-character first member
         if t[1] in ("KSet", "KFrozenset"):
             vals = coregen._dedupe_eq(vals)
         return SEQ_PY[t[1]](vals)
@@ -267,8 +264,8 @@ def gen_value(rng, t, env, mod, depth=3, size=3):
         cls = getattr(mod, cname(n))
         kw = {}
         for fn, ft, default in d[3]:
-            if default is not None and (depth <= 0 or rng.random() < 0.3):
-                continue
+            if default is not None and (depth <= 0 or rng.random() < 0.3) and not env.get("bad_defaults"):
+                continue      # (a nonconforming default would make the value invalid)
             if d[2] == "total=False" and rng.random() < 0.3:
                 continue
             kw[fn] = gen_value(rng, ft, env, mod, depth - 1, size)
@@ -454,11 +451,13 @@ def same(a, b) -> bool:
     if isinstance(a, decimal.Decimal):
         return a.as_tuple() == b.as_tuple()
     if isinstance(a, datetime.datetime):
-        return a == b and a.utcoffset() == b.utcoffset() and a.fold == b.fold and (a.tzinfo is None) == (b.tzinfo is None) \
-            if (a.tzinfo is None) == (b.tzinfo is None) else False
+        if (a.tzinfo is None) != (b.tzinfo is None):
+            return False
+        return a == b and a.utcoffset() == b.utcoffset() and a.fold == b.fold
     if isinstance(a, datetime.time):
-        return (a.tzinfo is None) == (b.tzinfo is None) and a.replace(tzinfo=None) == b.replace(tzinfo=None) \
-            and a.utcoffset() == b.utcoffset()
+        if (a.tzinfo is None) != (b.tzinfo is None):
+            return False
+        return a.replace(tzinfo=None) == b.replace(tzinfo=None) and a.utcoffset() == b.utcoffset()
     try:
         return bool(a == b)
     except Exception:
